@@ -37,7 +37,8 @@ RULE = ("machine classes composed with type() from 0-3 instrumented mixins of ea
         "non-trivial = at least one injected fault fired or the body raised in some session; distinct = distinct case lines")
 TRUSTED = ["CPython's contextlib.ExitStack / contextmanager behave as modelled in Life.unwind (tested by the same cases)",
            "flat compositions: the MRO of type(name, bases, ns) lists the mixins in declaration order"]
-ASSUMPTIONS = ["no step's context manager suppresses exceptions (nothing in tbot's core does)",
+ASSUMPTIONS = ["a step whose context manager handles (suppresses) exceptions in its clean-up is exercised with set-up and body "
+               "faults only; an exception raised by a TEARDOWN inside such a step is handled by it — outside the model",
                "enter/exit histories are balanced (`with` statements); at most one PowerControl and one connector/shell "
                "per class (Python's MRO cannot express more)",
                "mixins subclass their Initializer base directly (indirect subclasses are skipped by the cls.__bases__ "
@@ -48,6 +49,25 @@ CM = "plciqs"
 
 def run_impl(line):
     return lifeimpl.run_case(line)
+
+
+def lean_line(line):
+    """the line the Lean side sees: the model has no notion of HOW the class was assembled (`<delay>@<k>`: the last
+    k bases were a class of their own, entered once before) nor of a step that handles exceptions in its clean-up
+    (styles t/u) — both must be invisible in the observation for the fault sets the generator uses with them"""
+    toks = line.split()
+    if len(toks) < 2:
+        return line
+    bases = ",".join((b[0] + {"t": "k", "u": "g"}.get(b[1:], b[1:])) if len(b) == 2 else b for b in toks[0].split(","))
+    return " ".join([bases, toks[1].split("@")[0]] + toks[2:])
+
+
+def model_request(line, impl):
+    return KIND + " " + lean_line(line)
+
+
+def spec_line(line):
+    return lean_line(line)
 
 
 # ---- generators --------------------------------------------------------------------------
@@ -108,8 +128,8 @@ def gen_session(rng, bases, pts):
         faults = []
     elif mode < 0.55:
         faults = [rng.choice(pts)]
-    elif mode < 0.82:
-        faults = rng.sample(pts, 2)
+    elif mode < 0.82 or len(pts) < 3:
+        faults = rng.sample(pts, min(2, len(pts)))
     else:
         faults = rng.sample(pts, rng.randint(3, min(6, len(pts))))
     gap = rng.choice([0, 0, 1, 2, 5, 20])
@@ -119,9 +139,20 @@ def gen_session(rng, bases, pts):
 def gen_case(rng, params):
     bases = gen_bases(rng)
     pts = fault_points(bases)
-    delay = rng.choice([0, 0, 3, 5, 10])
+    delay = str(rng.choice([0, 0, 3, 5, 10]))
+    r = rng.random()
+    if r < 0.15:
+        # one step handles exceptions in its clean-up; then only set-up and body faults are injected (an exception
+        # raised by a teardown inside such a step is legitimately handled by it — outside the model)
+        cms = [i for i, b in enumerate(bases) if b[0] in CM and b[0] != "l"]   # (a handling lab-host clone() makes the real ConsoleConnector._connect generator not yield: a misuse, not a case)
+        i = rng.choice(cms)
+        bases[i] = bases[i][0] + {"g": "u", "k": "t"}[bases[i][1]]
+        pts = [p for p in pts if p[0] not in "xf"]
+    elif r < 0.4:
+        # the class is derived from a complete machine class that has been used before
+        delay += "@%d" % rng.randint(2, max(2, len(bases) - 1))
     sessions = [gen_session(rng, bases, pts) for _ in range(rng.choice([1, 1, 2, 3]))]
-    return " ".join([",".join(bases), str(delay)] + sessions)
+    return " ".join([",".join(bases), delay] + sessions)
 
 
 def exhaustive(params):
@@ -162,7 +193,9 @@ def classify(line, obs):
     bases = toks[0].split(",")
     ks = ["steps=%d" % len([b for b in bases if b != "h"]), "connector=" + ("console" if any(b[0] == "l" for b in bases) else "stub"),
           "power=" + (str([b for b in bases if b[0] in "iw"].index("w")) if "w" in bases else "none"),
-          "hook=%d" % ("h" in bases), "sessions=%d" % (len(toks) - 2), "delay=" + ("0" if toks[1] == "0" else ">0")]
+          "hook=%d" % ("h" in bases), "sessions=%d" % (len(toks) - 2), "delay=" + ("0" if toks[1].split("@")[0] == "0" else ">0"),
+          "class=" + ("derived" if "@" in toks[1] else "flat"),
+          "suppressing-step=%d" % any(len(b) == 2 and b[1] in "tu" for b in bases)]
     canon = ["i" if b == "w" else b[0] for b in bases if b != "h" and b[0] != "l"]
     ks.append("order=" + ("documented" if canon == sorted(canon, key="pcisq".index) else "shuffled"))
     for (gap, sty, faults, body), o in zip(_sessions(line), obs.split()):
@@ -205,6 +238,8 @@ def shrink_candidates(line):
     """drop a session, a fault, a body op pair or marker, a base class (renumbering the ids), the delay, a gap"""
     toks = line.split()
     bases, delay, sess = toks[0].split(","), toks[1], toks[2:]
+    if "@" in delay:
+        yield " ".join([toks[0], delay.split("@")[0]] + sess)
     for i in range(len(sess)):
         yield " ".join([toks[0], delay] + sess[:i] + sess[i + 1:])
     for i, s in enumerate(sess):
@@ -231,8 +266,8 @@ def shrink_candidates(line):
             yield put(gap="0")
         if sty != "E":
             yield put(sty="E")
-    if delay != "0":
-        yield " ".join([toks[0], "0"] + sess)
+    if delay.split("@")[0] != "0":
+        yield " ".join([toks[0], "@".join(["0"] + delay.split("@")[1:])] + sess)
     for i, b in enumerate(bases):
         if b[0] in "cs":
             continue
